@@ -35,7 +35,7 @@ func VerifC02Embedded() {
 		// V's own actor: its outbox (id on V) continues on a page served by E, which
 		// has no id of its own and embeds a forged copy of V's note in an activity by alice
 		w.Routes[jtp.VHostB+"/alice"] = c09Doc(`{"type":"Person","id":"` + c02V + `/alice","name":"alice","outbox":{"type":"OrderedCollection","id":"` + c02V + `/outbox","totalItems":1,"first":"` + c02E + `/page"}}`)
-		w.Routes[jtp.VHostA+"/page"] = c09Doc(`{"type":"OrderedCollectionPage","orderedItems":[{"type":"Create","actor":"` + c02V + `/alice","object":` + c02ForgedNote(true) + `}]}`)
+		w.Routes[jtp.VHostA+"/page"] = c09Doc(`{"type":"OrderedCollectionPage","orderedItems":[{"type":"Create","actor":"` + c02V + `/alice","object":` + c02ForgedNote(true) + `},{"type":"Create","id":"` + c02V + `/create","actor":"` + c02V + `/alice","object":` + c02ForgedNote(true) + `}]}`)
 		jtp.VerifUseWorld(w, 16)
 		c02CheckActor(c02V + "/alice")
 		verifrt.Reach("end")
@@ -70,7 +70,7 @@ func c02CheckActor(url string) {
 	if !ok || actor.Children() == nil {
 		return
 	}
-	items, _, _ := actor.Children().Harvest(2, 0)
+	items, _, _ := actor.Children().Harvest(3, 0)
 	checked := 0
 	var check func(t Tangible, depth int)
 	check = func(t Tangible, depth int) {
